@@ -82,7 +82,8 @@ CHECKS = {
     "C11": C("Enumeration of the full dtype cell table x every plan + Hypothesis data; NumPy-derived expected dtypes; per-block truthfulness",
              "Every (input dtype x reduction x dtype= x fill) cell is run on every plan (4 engines, 5 chunked strategies x 2 "
              "chunkings): dtype/shape plan-independent, equal to the table derived from NumPy at run time, and the lazy result's "
-             "announced dtype/shape/chunks/meta equal those of the computed array and of every computed block.",
+             "announced dtype/shape/chunks/meta equal those of the computed array and of every computed block. Generated cells add a "
+             "chunked batch dimension, chunked labels, two groupers and arbitrary chunk compositions; arg-reductions also get NaN fills.",
              "Cells without a NumPy convention are held to plan-independence and truthfulness only.", "§4 C11"),
     "C15": C("Hypothesis vs native xarray groupby (flox disabled), layered comparison; pass-through and core-array oracles",
              "Generated DataArrays/Datasets (1-4 permuted dims, 1-D/2-D/external/two groupers, dim variants, skipna, min_count, "
